@@ -45,6 +45,7 @@ func init() {
 		"vfTimeEq":     vfTimeEq,
 		"vfFormatTime": vfFormatTime,
 		"vfStrIn":      vfStrIn,
+		"vfContains":   vfContains,
 		"vfLog":        vfLog,
 		"vfEngine":     func(fr *frame, args []value) value { return true },
 		"vfYield":      vfYield,
@@ -235,6 +236,11 @@ func vfStrIn(fr *frame, args []value) value {
 		}
 	}
 	return mkBool(smtOr(parts))
+}
+
+// vfContains(s, sub): strings.Contains as one term (no fork).
+func vfContains(fr *frame, args []value) value {
+	return inContains(fr, args)
 }
 
 func vfAllowPanic(fr *frame, args []value) value {
